@@ -28,6 +28,10 @@ def main():
     nw, outp, pdir = int(sys.argv[1]), sys.argv[2], sys.argv[3]
     props = sys.argv[4:] or ["C%02d" % i for i in range(1, 20)]
     ids = [(f, p) for f in sorted(os.listdir(pdir)) if f.endswith(".diff") for p in props]
+    # an optional MAP.txt in the patch directory restricts each patch to the listed properties: "h01.diff C01 C19"
+    mp = os.path.join(pdir, "MAP.txt")
+    if os.path.exists(mp) and not sys.argv[4:]:
+        ids = [(l.split()[0], p) for l in open(mp) if l.strip() for p in l.split()[1:]]
     root = tempfile.mkdtemp(prefix="parmatrix_")
     workers = Queue()
     try:
